@@ -40,6 +40,13 @@ POOL_TEXTS = ["friday 9-5", "8:00 pm - 9:00 pm", "tomorrow 8-10 uhr", "May 5th 2
               "#work standup tomorrow 9am #team #work", "#a #b #a #c call", "gargelbabel #x #y #x #z",
               "Lunch zzyx Tomorrow #food", "lunch zzyx tomorrow #food", "FRIDAY 9-5 qwv", "friday 9-5 qwv",
               "tomorrow at midnight", "party at midnight", "midnight", "um mitternacht morgen", "noon", "lunch at noon tomorrow"]
+# the same expressions in different orders (a memo keyed on the set of expressions rather than the sequence shows
+# as history dependence); every ordering gets the same reference time and options
+ORDER_FAMILIES = [
+    ["5pm", "friday", "next week"], ["march", "5", "monday"], ["tomorrow", "morning", "8"], ["nächsten", "freitag", "17 uhr"],
+    ["next", "monday", "3pm", "-", "4pm"], ["5.", "märz", "um 8"], ["of", "march", "5"], ["am", "montag", "früh", "um 9"],
+    ["12.12.", "8:00", "abends"], ["first", "of", "may", "noon"], ["in", "3", "days", "5pm"], ["this", "friday", "evening", "7"],
+]
 OPTS = [
     {},
     {"latent_time": False},
@@ -67,6 +74,15 @@ def build_pool(seed, size):
              ("9-5", {"relative_match_len": 0.5}), ("9-5", {})]
     for t, o in twins:
         pool.append([t, tss[0].isoformat(), dict(o)])
+    fams = list(ORDER_FAMILIES)
+    for _ in range(4):
+        fams.append([rnd.choice(p) for p in rnd.sample([gen.WEEKDAYS, gen.MONTHS, gen.REL, gen.PODS, gen.CLOCK, gen.ORD, gen.DIGITS, gen.CONN], 3)])
+    for fi, fam in enumerate(fams):
+        perms = list(itertools.permutations(fam))
+        rnd.shuffle(perms)
+        fo = [{}, {"latent_time": False}, {"scorer": "dummy"}][fi % 3]
+        for pm in perms[:3]:
+            pool.append([" ".join(pm), tss[fi % len(tss)].isoformat(), dict(fo)])
     for i, t in enumerate(texts):
         o = dict(OPTS[i % len(OPTS)])
         o2, _ = gen.bounded_options(t, dict(o, max_stack_depth=o.get("max_stack_depth", 10)), max_seq=300, max_seq_depth0=30, max_len_depth0=5)
